@@ -73,3 +73,7 @@ pub mod smalllist;
 /// S-hash (std::collections::HashMap, fnv::FnvHashMap)
 #[path = "hashmap.rs"]
 pub mod hashmap;
+
+/// S-vec (arrayvec::ArrayVec)
+#[path = "arrayvec.rs"]
+pub mod arrayvec;
